@@ -38,3 +38,43 @@ Print Assumptions C11_rejected_original.
 Print Assumptions C11_nothing_to_reduce.
 Print Assumptions C11_status.
 Print Assumptions C11_check_only.
+
+(* ---- a following run() on a RE-USED Lithium object (Model/Session.v): same statements for EVERY previous
+   world (any counters, temp dir, stale last_interesting, written flag) *)
+From Lithium Require Import Session SessionProofs.
+
+Theorem C11_session_rejected_original :
+  forall S (strat : strategy S) verdict fuel tc0 file0 prev,
+    tc_len tc0 <> 0 -> verdict (w_tests prev + 1) file0 = No ->
+    exists w, run_on strat verdict fuel tc0 (carry true prev file0) = Finished 1 w /\
+              n_tests (chron w) = 1 /\ no_writes (chron w) /\ w_file w = file0.
+Proof. exact session_rejected_original. Qed.
+
+Theorem C11_session_check_only :
+  forall verdict tc0 file0 prev,
+    exists w, n_tests (chron w) = 1 /\ no_writes (chron w) /\ w_file w = file0 /\
+      run_check_only_on verdict tc0 (carry true prev file0) =
+        match verdict (w_tests prev + 1) file0 with
+        | Yes => Finished 0 w | No => Finished 1 w | Raise => Aborted None w end.
+Proof. exact session_check_only_spec. Qed.
+
+(* without the reset (the code before fix b8a6434) the statements are false: a previous run
+   that wrote a candidate makes a following check-only run / rejected original rewrite the file,
+   with the PREVIOUS run's content *)
+Theorem C11_session_without_reset_refuted :
+  exists verdict tc0 file0 prev w,
+    run_check_only_on verdict tc0 (carry false prev file0) = Finished 0 w /\
+    ~ no_writes (chron w).
+Proof. exact session_without_reset_refuted. Qed.
+
+Theorem C11_session_without_reset_clobbers :
+  exists S (strat : strategy S) verdict fuel tc0 file0 prev w,
+    tc_len tc0 <> 0 /\ verdict (w_tests prev + 1) file0 = No /\
+    run_on strat verdict fuel tc0 (carry false prev file0) = Finished 1 w /\
+    w_file w <> file0.
+Proof. exact session_without_reset_clobbers. Qed.
+
+Print Assumptions C11_session_rejected_original.
+Print Assumptions C11_session_check_only.
+Print Assumptions C11_session_without_reset_refuted.
+Print Assumptions C11_session_without_reset_clobbers.
